@@ -148,6 +148,13 @@ def _corner_frames(gen):
                              for i in range(ln))
                 out.append((f"header-state-{target:04x}", R.frame(gen, R.ADDR_CLIENT, frm, pid,
                                                                   typ, body)))
+    # covered bytes whose value equals a prefix byte (0x55, 0xAA, 0xAB): the covered range
+    # starts at the address byte whatever its value
+    body = bytes(range(1, 8))
+    for to, frm, pid in ((0x55, 0x80, 9), (R.ADDR_CLIENT, 0x55, 0x55), (0xAA, 0xAB, 0x55),
+                         (0x55, 0x55, 0xAA)):
+        out.append((f"prefix-valued-header-{to:02x}{frm:02x}{pid:02x}",
+                    R.frame(gen, to, frm, pid, 0x77, body)))
     for target in (0x0000, 0xFFFF):
         head = bytes([R.ADDR_CLIENT, 0x80, 9, 0x77, 0, 12]) + bytes(range(1, 11))
         regh = R.crc16(head)
